@@ -95,7 +95,7 @@ func init() {
 		ID: "C20", Level: "fault_enumeration",
 		Verdict: []string{"health."},
 		Rule: "for sampled healthy ledgers (mixed histories, after a commit): (i) a fresh storage with every slab loaded must pass CheckStorageHealth with the model's root count and return exactly the model's root set, and GetAllChildReferences of every root must return exactly the reference set the independent parser reaches, no broken ones; (ii) enumerated for EVERY slab of the ledger: delete a referenced register; add an unreferenced register (re-addressed copy) beyond the expected root count; make a second parent reference an already-referenced slab (index-slab child header patched; element-level through a harness value that stores a raw slab reference, so the library writes a well-formed register); re-address an element-referenced slab to another owner; a reference that lives inside a large-value slab (a wrapper around a slab reference stored in a slab of its own: healthy, and unhealthy once the referenced register is deleted); a second reference placed in the very container (same parent slab) that already holds the first; histories that dispose of every container (zero expected roots) plus one added register - each at the register level (fresh storage, everything loaded) and, for deletion and double reference, through the storage API on the live storage before and after a commit; the health check must fail for every one, and the reference query must list a deleted slab as broken and the rest as the parser sees it. Non-trivial = a ledger with >= 4 slabs incl. an element-level reference; distinct by trace hash",
-		ExpectedReach: []string{"health.positive", "health.corruption.delete-ref.register", "health.corruption.delete-ref.api", "health.corruption.delete-ref.api-committed", "health.corruption.orphan.register", "health.corruption.double-ref.meta.register", "health.corruption.double-ref.elem.api", "health.corruption.cross-owner.register", "health.refs-checked", "health.corruption.orphan.empty.register", "health.corruption.double-ref.same-parent.api"},
+		ExpectedReach: []string{"health.positive", "health.corruption.delete-ref.register", "health.corruption.delete-ref.api", "health.corruption.delete-ref.api-committed", "health.corruption.orphan.register", "health.corruption.double-ref.meta.register", "health.corruption.double-ref.elem.api", "health.corruption.cross-owner.register", "health.refs-checked", "health.corruption.orphan.empty.register", "health.corruption.double-ref.same-parent.api", "health.live-checked"},
 	}
 	type aux struct {
 		C *corruption `json:"corruption,omitempty"`
@@ -605,6 +605,7 @@ func init() {
 			}
 			return res
 		}
+		agg.Add("health.live-checked", w.Stats.C["health.live-checked"])
 		finish := func(v *Violation, c *corruption) *RunResult {
 			if v != nil {
 				if ps.isVerdict(v.Class) {
